@@ -132,7 +132,7 @@ theorem walk_eq (M : MCtx) (S : SCtx) (hr : M.repl = S.repl) (hp : M.plist = S.p
   | 0, _, _, _ => by simp [walk, serial, WR.map]
   | fuel + 1, depth, key, v => by
     simp only [walk, serial, hr, hp, hc, unbox_eq]
-    generalize (unbox4 S.cv (match S.repl with | some f => f key (viaToJSON v) | none => viaToJSON v)) = u
+    generalize (unbox4 S.cv (match S.repl with | some f => f key (viaToJSON (viaGet v)) | none => viaToJSON (viaGet v))) = u
     cases u with
     | arr l =>
       simp only [walkArr_eq M S hr hp hc fuel (depth + 1) 0 l]
@@ -664,121 +664,31 @@ theorem parseText_marshal (L : OttoVerif.C06.Lib) (gap : Str) (hgap : gap.all is
 
 /-! ### the reviver walk -/
 
-def app : RMs' → RMs' → RMs'
-  | .nil, m => m
-  | .cons k v t, m => .cons k v (app t m)
-
-def notIn (k : Str) : RMs' → Bool
-  | .nil => true
-  | .cons k' _ t => k' != k && notIn k t
-
-def distinctM : RMs' → Bool
-  | .nil => true
-  | .cons k _ t => notIn k t && distinctM t
-
 mutual
-/-- every object of the value has pairwise distinct property names -/
-def distinctKeys : RV → Bool
-  | .arr l => distinctKeysL l
-  | .obj m => distinctM m && distinctKeysM m
-  | _ => true
-def distinctKeysL : RVs → Bool
-  | .nil => true
-  | .cons v t => distinctKeys v && distinctKeysL t
-def distinctKeysM : RMs' → Bool
-  | .nil => true
-  | .cons _ v t => distinctKeys v && distinctKeysM t
-end
-
-theorem get_app (k : Str) (v : RV) (t : RMs') : ∀ pre, notIn k pre = true → RMs'.get k (app pre (.cons k v t)) = some v
-  | .nil, _ => by simp [app, RMs'.get]
-  | .cons k' v' p, h => by
-    simp only [notIn, Bool.and_eq_true, bne_iff_ne, ne_eq] at h
-    simp [app, RMs'.get, h.1, get_app k v t p h.2]
-
-theorem del_app (k : Str) (v : RV) (t : RMs') : ∀ pre, notIn k pre = true → RMs'.del k (app pre (.cons k v t)) = app pre t
-  | .nil, _ => by simp [app, RMs'.del]
-  | .cons k' v' p, h => by
-    simp only [notIn, Bool.and_eq_true, bne_iff_ne, ne_eq] at h
-    simp [app, RMs'.del, h.1, del_app k v t p h.2]
-
-theorem set_app (k : Str) (v x : RV) (t : RMs') : ∀ pre, notIn k pre = true →
-    RMs'.set k x (app pre (.cons k v t)) = app (app pre (.cons k x .nil)) t
-  | .nil, _ => by simp [app, RMs'.set]
-  | .cons k' v' p, h => by
-    simp only [notIn, Bool.and_eq_true, bne_iff_ne, ne_eq] at h
-    simp [app, RMs'.set, h.1, set_app k v x t p h.2]
-
-theorem app_nil : ∀ m, app m .nil = m
-  | .nil => rfl
-  | .cons k v t => by simp [app, app_nil t]
-
-theorem app_assoc : ∀ a b c, app (app a b) c = app a (app b c)
-  | .nil, _, _ => rfl
-  | .cons k v t, b, c => by simp [app, app_assoc t b c]
-
-/-- the names of `t` do not occur in `pre` -/
-def fresh (pre : RMs') : RMs' → Bool
-  | .nil => true
-  | .cons k _ t => notIn k pre && fresh pre t
-
-theorem notIn_app (k : Str) : ∀ a b, notIn k (app a b) = (notIn k a && notIn k b)
-  | .nil, b => by simp [app, notIn]
-  | .cons k' v t, b => by simp [app, notIn, notIn_app k t b, Bool.and_assoc]
-
-theorem fresh_snoc (pre : RMs') (k : Str) (x : RV) : ∀ t, fresh pre t = true → notIn k t = true →
-    fresh (app pre (.cons k x .nil)) t = true
-  | .nil, _, _ => rfl
-  | .cons k' v' t, h, hn => by
-    simp only [fresh, Bool.and_eq_true] at h
-    simp only [notIn, Bool.and_eq_true, bne_iff_ne, ne_eq] at hn
-    simp only [fresh, notIn_app, notIn, Bool.and_eq_true, bne_iff_ne, ne_eq, Bool.and_true]
-    exact ⟨⟨h.1, fun e => hn.1 e.symm⟩, fresh_snoc pre k x t h.2 hn.2⟩
-
-theorem fresh_nil : ∀ m, fresh .nil m = true
-  | .nil => rfl
-  | .cons _ _ t => by simp [fresh, notIn, fresh_nil t]
-
-mutual
-theorem reviveM_eq (f : Reviver) : ∀ fuel name v, distinctKeys v = true → reviveM f fuel name v = Spec.revive f fuel name v
-  | 0, _, _, _ => by simp [reviveM, Spec.revive]
-  | fuel + 1, name, .arr l, h => by
-    simp only [distinctKeys] at h
-    simp [reviveM, Spec.revive, reviveArrM_eq f fuel 0 l h]
-  | fuel + 1, name, .obj m, h => by
-    simp only [distinctKeys, Bool.and_eq_true] at h
-    have := reviveObjM_eq f fuel m .nil h.1 h.2 (fresh_nil m)
-    simp only [app] at this
-    simp [reviveM, Spec.revive, this]
-  | fuel + 1, name, .undef, _ => by simp [reviveM, Spec.revive]
-  | fuel + 1, name, .null, _ => by simp [reviveM, Spec.revive]
-  | fuel + 1, name, .bool _, _ => by simp [reviveM, Spec.revive]
-  | fuel + 1, name, .num _, _ => by simp [reviveM, Spec.revive]
-  | fuel + 1, name, .str _, _ => by simp [reviveM, Spec.revive]
-theorem reviveArrM_eq (f : Reviver) : ∀ fuel i l, distinctKeysL l = true → reviveArrM f fuel i l = Spec.reviveArr f fuel i l
-  | 0, _, _, _ => by simp [reviveArrM, Spec.reviveArr]
-  | _ + 1, _, .nil, _ => by simp [reviveArrM, Spec.reviveArr]
-  | fuel + 1, i, .cons v t, h => by
-    simp only [distinctKeysL, Bool.and_eq_true] at h
-    simp only [reviveArrM, Spec.reviveArr, reviveM_eq f fuel (decimalNat i) v h.1, reviveArrM_eq f fuel (i + 1) t h.2]
-    cases (Spec.revive f fuel (decimalNat i) v).fst <;> rfl
-theorem reviveObjM_eq (f : Reviver) : ∀ fuel (t pre : RMs'), distinctM t = true → distinctKeysM t = true → fresh pre t = true →
-    reviveObjM f fuel (RMs'.keys t) (app pre t) = (app pre (Spec.reviveObj f fuel t).1, (Spec.reviveObj f fuel t).2)
-  | 0, t, pre, _, _, _ => by simp [reviveObjM, Spec.reviveObj]
-  | _ + 1, .nil, pre, _, _, _ => by simp [reviveObjM, Spec.reviveObj, RMs'.keys]
-  | fuel + 1, .cons k v t, pre, hd, hk, hf => by
-    simp only [distinctM, Bool.and_eq_true] at hd
-    simp only [distinctKeysM, Bool.and_eq_true] at hk
-    simp only [fresh, Bool.and_eq_true] at hf
-    simp only [RMs'.keys, reviveObjM, get_app k v t pre hf.1, reviveM_eq f fuel k v hk.1, Spec.reviveObj]
-    cases hr : (Spec.revive f fuel k v).1 with
-    | none =>
-      simp only [del_app k v t pre hf.1, reviveObjM_eq f fuel t pre hd.2 hk.2 hf.2]
-    | some x =>
-      have hf' := fresh_snoc pre k x t hf.2 hd.1
-      dsimp only
-      rw [set_app k v x t pre hf.1, reviveObjM_eq f fuel t _ hd.2 hk.2 hf']
-      simp [app_assoc, app]
+theorem reviveM_eq (f : Reviver) : ∀ fuel name v, reviveM f fuel name v = Spec.revive f fuel name v
+  | 0, _, _ => by simp [reviveM, Spec.revive]
+  | fuel + 1, name, .arr l => by simp [reviveM, Spec.revive, reviveArrM_eq f fuel 0 l]
+  | fuel + 1, name, .obj m => by simp [reviveM, Spec.revive, reviveObjM_eq f fuel (RMs'.keys m) m]
+  | fuel + 1, name, .undef => by simp [reviveM, Spec.revive]
+  | fuel + 1, name, .null => by simp [reviveM, Spec.revive]
+  | fuel + 1, name, .bool _ => by simp [reviveM, Spec.revive]
+  | fuel + 1, name, .num _ => by simp [reviveM, Spec.revive]
+  | fuel + 1, name, .str _ => by simp [reviveM, Spec.revive]
+theorem reviveArrM_eq (f : Reviver) : ∀ fuel i l, reviveArrM f fuel i l = Spec.reviveArr f fuel i l
+  | 0, _, _ => by simp [reviveArrM, Spec.reviveArr]
+  | _ + 1, _, .nil => by simp [reviveArrM, Spec.reviveArr]
+  | fuel + 1, i, .cons v t => by
+    simp only [reviveArrM, Spec.reviveArr, reviveM_eq f fuel (decimalNat i) v, reviveArrM_eq f fuel (i + 1) t]
+    cases (Spec.revive f fuel (decimalNat i) v).fst.val <;> rfl
+theorem reviveObjM_eq (f : Reviver) : ∀ fuel names cur, reviveObjM f fuel names cur = Spec.reviveObj f fuel names cur
+  | 0, _, _ => by simp [reviveObjM, Spec.reviveObj]
+  | _ + 1, [], _ => by simp [reviveObjM, Spec.reviveObj]
+  | fuel + 1, name :: names, cur => by
+    simp only [reviveObjM, Spec.reviveObj]
+    cases hg : RMs'.get name cur <;>
+      simp only [reviveM_eq f fuel name _] <;>
+      cases (Spec.revive f fuel name _).fst.val <;>
+      simp only [reviveObjM_eq f fuel names _] <;> rfl
 end
 
 /-! ### Quote -/
